@@ -455,6 +455,26 @@ def fam_lib():
     }
     for k, body in extra.items():
         out.append(Case("lib:script:%s" % k, wrap_fn(body)))
+    # size regimes: library algorithms switch strategy with the input size (small-slice sorts, inline vs heap storage,
+    # hash table growth); every operation is repeated on inputs of several sizes, with ties and mixed element kinds
+    for n in (5, 21, 40, 100, 257):
+        mk = "var n=%d; var a=[]; for (var i=0;i<n;i++){ a.push((i*7)%%5===0 ? String((i*3)%%11) : (i*3)%%11); } var objs=[]; for (var j=0;j<n;j++){ objs.push({k:(j*5)%%7, id:j}); }" % n
+        sized = {
+            'sort-default-mixed-equal-keys': "a.sort(); return a.map(function(x){ return typeof x==='string' ? 's'+x : 'n'+x; }).join();",
+            'sort-default-vs-toSorted': "var b=a.slice(); var c=typeof a.toSorted==='function' ? a.toSorted() : a.slice().sort(); b.sort(); return [b.map(function(x){ return (typeof x)[0]+x; }).join()===c.map(function(x){ return (typeof x)[0]+x; }).join(), b.length];",
+            'sort-comparator-ties-stable': "objs.sort(function(p,q){ return p.k-q.k; }); return objs.map(function(o){ return o.k+':'+o.id; }).join();",
+            'sort-comparator-reverse-ties': "objs.sort(function(p,q){ return q.k-p.k; }); return objs.map(function(o){ return o.id; }).join();",
+            'sort-strings-default': "var s=objs.map(function(o){ return 'k'+o.k; }); var t=s.map(function(x,i){ return {x:x,i:i}; }); t.sort(function(p,q){ return p.x<q.x?-1:(p.x>q.x?1:0); }); return t.map(function(o){ return o.i; }).join();",
+            'reverse-index-search': "var r=a.slice().reverse(); return [r[0], r[n-1], a.indexOf(3), a.lastIndexOf(3), a.indexOf('3'), a.includes('0'), a.findIndex(function(x){ return x===10; }), a.findLastIndex ? a.findLastIndex(function(x){ return x===10; }) : -2];",
+            'splice-slice-concat': "var b=a.slice(); var rem=b.splice(Math.floor(n/2), 3, 'X', 'Y'); return [rem, b.length, b.slice(-4), a.concat(b).length, b.slice(1, 4), a.flat().length];",
+            'map-set-order': "var m=new Map(); var st=new Set(); for (var i2=0;i2<n;i2++){ m.set('k'+((i2*3)%n), i2); st.add((i2*5)%n); } m.delete('k0'); m.set('k0','z'); var ks=[]; m.forEach(function(v,k){ ks.push(k); }); return [ks.join(), Array.from(st).join(), m.size, st.size];",
+            'object-keys-order': "var o={}; for (var i3=0;i3<n;i3++){ o['p'+((i3*7)%n)]=i3; } delete o.p0; o.p0=1; return [Object.keys(o).join(), Object.values(o).length, JSON.stringify(o).length];",
+            'string-algorithms': "var s2=a.join(''); return [s2.length, s2.split('1').length, s2.replaceAll ? s2.replaceAll('1','[1]').length : -1, s2.indexOf('10'), s2.lastIndexOf('3'), s2.padStart(n*3,'ab').slice(0,5), s2.slice(-7), s2.toUpperCase()===s2];",
+            'reduce-map-filter': "return [a.reduce(function(acc,x){ return acc+Number(x); },0), a.map(function(x){ return Number(x)*2; }).filter(function(x){ return x%4===0; }).length, a.every(function(x){ return Number(x)<11; }), a.some(function(x){ return x==='10'; })];",
+            'json-roundtrip': "var t2=JSON.stringify({a:a,o:objs}); var back=JSON.parse(t2); return [t2.length, back.a.length, back.o[n-1].id, JSON.stringify(back)===t2];",
+        }
+        for k, body in sized.items():
+            out.append(Case("lib:size:%d:%s" % (n, k), wrap_fn(mk + " " + body)))
     seen = set()
     ded = []
     for c in out:
